@@ -133,7 +133,25 @@ def _inverse(word):
     return [(inv.get(op, '?' + op), t) for op, t in reversed(word)]
 
 
+def _erase_cuts_behind_terminator(ctx, rep):
+    """LOAD starts from an erased program: erase() writes the three-byte terminator at 0 and cuts the buffer *behind* it;
+    cutting first (at whatever position the pointer had) leaves the old program's tail behind the newly loaded one."""
+    for meth, want in (('erase', ['seek(0)', "write(b'\\x00\\x00\\x00')", 'truncate()']), ('truncate', ['write(*)', 'truncate()'])):
+        fn = ctx.fn('pcbasic/basic/program.py:Program.' + meth)
+        ops = []
+        for c in sorted((c for c in own_nodes(fn) if isinstance(c, ast.Call) and norm(c.func).startswith('self.bytecode.')), key=lambda c: (c.lineno, c.col_offset)):
+            op = norm(c.func)[len('self.bytecode.'):]
+            if op == 'tell':
+                continue
+            ops.append('%s(%s)' % (op, ', '.join(norm(a) for a in c.args)))
+        got = [o if not (w.endswith('(*)') and o.startswith(w[:-2])) else w for o, w in zip(ops, want)] if len(ops) == len(want) else ops
+        rep.ob('erase.cuts-behind-terminator', 'Program.%s: %s' % (meth, ' then '.join(want)), got == want, repr(ops), ctx.where(fn))
+
+
 def check(ctx, rep):
+    from . import c24 as _c24, _share as _sh
+    _sh.share(ctx, rep, _c24, ('lines.reader',), 'an ASCII program is loaded line by line through TextFile.read_line: a line of up to 255 characters arrives whole')
+    _erase_cuts_behind_terminator(ctx, rep)
     p = _cipher_word(ctx, rep, 'protect')
     u = _cipher_word(ctx, rep, 'unprotect')
     rep.note('protect_word', ['%s %s' % w for w in p['word']])
@@ -317,6 +335,7 @@ def variants(ctx):
         return t
 
     return [
+        V('erase-cuts-before-writing-the-terminator', 'break', PROGRAM, in_fn('Program.erase', _truncate_first), expect='erase.cuts-behind-terminator'),
         V('merge-ends-at-blank-line', 'break', PROGRAM,
           in_fn('Program.merge', lambda fn: mu.replace_expr(fn, mu.text_is('not line and (not cr)'), 'not line')), expect='ascii.eof'),
         V('unprotect-swap-sub-add', 'break', PROTECT,
@@ -362,3 +381,13 @@ def variants(ctx):
         V('add-logging', 'neutral', PROGRAM,
           in_fn('Program.save', lambda fn: mu.insert_first(fn, "logging.debug('saving')"))),
     ]
+
+
+def _truncate_first(fn):
+    t = [st for st in fn.body if norm(st) == 'self.bytecode.truncate()']
+    if len(t) != 1:
+        return False
+    fn.body.remove(t[0])
+    k = 1 if isinstance(fn.body[0], ast.Expr) and isinstance(fn.body[0].value, ast.Constant) else 0
+    fn.body.insert(k, t[0])
+    return True
